@@ -185,18 +185,27 @@ def script_stage(chk, rng, binp, ncases, depth, tag="c14"):
         kinds = "".join(rng.choice("ttr") for _ in range(nend))
         used = set()
         pre = None
-        if rng.random() < 0.35:
+        predead = False
+        r0 = rng.random()
+        if r0 < 0.35:
             # an earlier send on the same thread that fails after embedding something
             pb, pt = gen_body(rng, nend, nreg, 1, used)
             pb, pt = finalize(pb + ",f", pt + "; SFail" if pt else "SFail", kinds)
             pre = (pb, pt)
+        elif r0 < 0.5:
+            # an earlier send on the same thread that serialises fine (embedding endpoints / regions) but is refused by the OS: its
+            # receiver is gone.  Nothing of it may reach the messages sent afterwards.
+            pb, pt = gen_body(rng, nend, nreg, 0, used)
+            pb, pt = finalize(pb, pt, kinds)
+            pre = (pb, pt)
+            predead = True
         b, t = gen_body(rng, nend, nreg, depth, used)
         if rng.random() < 0.3:
             b, t = b + ",f", (t + "; SFail") if t else "SFail"
         b, t = finalize(b, t, kinds)
-        cases.append({"id": i + 1, "body": b, "term": t, "nend": nend, "kinds": kinds, "nreg": nreg, "pre": pre})
-    lines = ["id=%d body=%s nend=%d kinds=%s nreg=%d%s" % (c["id"], c["body"], c["nend"], c["kinds"], c["nreg"],
-                                                         (" pre=" + c["pre"][0]) if c["pre"] else "") for c in cases]
+        cases.append({"id": i + 1, "body": b, "term": t, "nend": nend, "kinds": kinds, "nreg": nreg, "pre": pre, "predead": predead})
+    lines = ["id=%d body=%s nend=%d kinds=%s nreg=%d%s%s" % (c["id"], c["body"], c["nend"], c["kinds"], c["nreg"],
+                                                           (" pre=" + c["pre"][0]) if c["pre"] else "", " predead=1" if c["predead"] else "") for c in cases]
     chunks = [list(range(len(cases)))[i::8] for i in range(8)]
 
     def run(idx):
@@ -226,7 +235,9 @@ def script_stage(chk, rng, binp, ncases, depth, tag="c14"):
         if why:
             fails.append((c, r, why))
         # the attachment references written into each message must be positions in THAT message's own lists
-        want = (expected_bytes(c["pre"][0]) if c["pre"] else []) + expected_bytes(c["body"]) + ["0707"]
+        if c["predead"] and res.get("pre") and not why:
+            fails.append((c, r, "a send to a channel whose receiver is gone reported success"))
+        want = (expected_bytes(c["pre"][0]) if (c["pre"] and not c["predead"]) else []) + expected_bytes(c["body"]) + ["0707"]
         have = [m.get("data") for m in res["msgs"]]
         if have != want and not why:
             fails.append((c, r, "a message's bytes (attachment indices, nested-send results) are not those of a self-contained send: expected %s, received %s"
@@ -235,8 +246,9 @@ def script_stage(chk, rng, binp, ncases, depth, tag="c14"):
         if "?" in obs:
             fails.append((c, r, "a received attachment is not connected to the endpoint that was embedded: %s" % obs))
             continue
-        pre_t = c["pre"][1] if c["pre"] else ""
-        todo.append((i, "check_script [%s] %s [%s] %s %s [%s]" % (pre_t, "true" if c["pre"] else "false", c["term"],
+        has_pre = bool(c["pre"]) and not c["predead"]      # a send the OS refused leaves no message and (theorem C14_err_releases) no trace
+        pre_t = c["pre"][1] if has_pre else ""
+        todo.append((i, "check_script [%s] %s [%s] %s %s [%s]" % (pre_t, "true" if has_pre else "false", c["term"],
                                                                    "true" if res.get("pre") else "false", "true" if res["res"] else "false", obs)))
     for c, r, why in fails[:8]:
         chk.failing_input(why, {"serializer_program": c["body"], "endpoint_kinds": c["kinds"], "earlier_failing_send": c["pre"] and c["pre"][0], "observed": r and r["result"]},
